@@ -28,6 +28,10 @@ def classify(r, st, bits):
     obs = r.get("obs") or []
     if k == "ins" and not st["ops"]:
         return "D_NoOperandTable"
+    if k == "ins" and mn in ("RET", "RETF", "RETN", "HLT", "NOP") and st["ops"]:
+        return "D_IgnoredOperands"
+    if k == "ins" and mn == "MOV" and bits == 16 and any(o["t"] == "m" and o.get("aw", 0) == 0 and not (-32768 <= o.get("d", 0) <= 65535) for o in st["ops"]):
+        return "D_AbsTrunc16"
     if k == "ins" and mn in ("DIV", "MUL", "IDIV") :
         return "D_Group3"
     if k in ("br",) or (k == "ins" and mn in ("JMP", "CALL")):
